@@ -238,7 +238,7 @@ func c10Peer(w *lifeW, behaviour string, at time.Duration, stop <-chan struct{},
 }
 
 func TestC10Lifecycle(t *testing.T) {
-	ev.Rule("1-3 open/close cycles; in each, 1-5 goroutines run 1-3 API calls each (Open blocking with a 250 ms ctx / Open background / Close / reply-expected send with a 150 ms ctx / async send / UpdateConfigOptions valid and invalid / State / Metrics) at drawn offsets 0-60 ms against a peer that is absent, cooperative, silent, drops after 40 ms, or flaps every 8 ms (HSMS-SS and SECS-I, both roles; real time, timers of tens of ms); oracle: no panic; every call returns within 4 s; then sequentially: Close returns within closeTimeout + 3 s, a second Close returns the same result within 200 ms, State() is NotConnected, no goroutine runs library code after a 2 s grace, every socket and listener handed to the library is closed, no dial/listen happens for 3xT5; a re-Open against a cooperative peer reaches Selected, a second Open returns ErrAlreadyOpen and changes nothing, a round trip works; non-trivial = two API calls of different goroutines overlapped in time (intervals widened by 1 ms)")
+	ev.Rule("1-3 open/close cycles; in each, 1-5 goroutines run 1-3 API calls each (Open blocking with a 250 ms ctx / Open background / Close / reply-expected send with a 150 ms ctx / async send / UpdateConfigOptions valid and invalid / State / Metrics) at drawn offsets 0-60 ms against a peer that is absent, cooperative, silent, drops after 40 ms, or flaps every 8 ms (HSMS-SS and SECS-I, both roles; real time, timers of tens of ms; the dial/listen seams given to the library return 0-40 ms late); oracle: no panic; every call returns within 4 s; then sequentially: Close returns within closeTimeout + 3 s, a second Close returns the same result within 200 ms, State() is NotConnected, no goroutine runs library code after a 2 s grace, every socket and listener handed to the library is closed, no dial/listen happens for 3xT5; a re-Open against a cooperative peer reaches Selected, a second Open returns ErrAlreadyOpen and changes nothing, a round trip works; non-trivial = two API calls of different goroutines overlapped in time (intervals widened by 1 ms)")
 	vt.Check(t, 160, 4000, func(rt *rapid.T) { runC10(rt) })
 }
 
@@ -247,6 +247,9 @@ func runC10(rt *rapid.T) {
 	useSecs1 := rapid.IntRange(0, 2).Draw(rt, "transport") == 0
 	equip := rapid.Bool().Draw(rt, "equip")
 	lt := time.Duration(rapid.SampledFrom([]int{0, 50}).Draw(rt, "linktestMs")) * time.Millisecond
+	// the library's dial / listen seams return this much late: a Close (or a drop) can then overtake a
+	// dial or a bind that is still in flight, and whatever it returns afterwards must not be leaked
+	slowSeams := time.Duration(rapid.SampledFrom([]int{0, 0, 2, 15, 40}).Draw(rt, "slowSeamsMs")) * time.Millisecond
 	core := []hsms.ConnOption{hsms.WithT3(300 * time.Millisecond), hsms.WithT5(40 * time.Millisecond), hsms.WithCloseTimeout(c10CloseTimeout), hsms.WithReconnectBackoff(10*time.Millisecond, 2)}
 	var w *lifeW
 	if useSecs1 {
@@ -261,6 +264,7 @@ func runC10(rt *rapid.T) {
 			rt.Fatalf("VERIF-INFRA: %v", err)
 		}
 		w = &lifeW{nw: b.nw, addr: b.addr, active: active, secs1: true, equip: equip, conn: b.conn, leakedFn: b.leaked}
+		b.slow.Store(int64(slowSeams))
 	} else {
 		b, err := newWorld(worldOpt{active: active, equip: equip, noListen: true, connOpts: append(core, hsms.WithT6(150*time.Millisecond), hsms.WithT7(200*time.Millisecond),
 			hsms.WithT8(150*time.Millisecond), hsms.WithWriteTimeout(300*time.Millisecond), hsms.WithLinktestInterval(lt))})
@@ -268,6 +272,7 @@ func runC10(rt *rapid.T) {
 			rt.Fatalf("VERIF-INFRA: %v", err)
 		}
 		w = &lifeW{nw: b.nw, addr: b.addr, active: active, equip: equip, conn: b.conn, leakedFn: b.leaked}
+		b.slow.Store(int64(slowSeams))
 	}
 	w.conn.AddDataMessageHandler(func(m *hsms.DataMessage, ep hsms.SECS2Endpoint) {})
 	w.conn.AddConnStateChangeHandler(func(prev, next hsms.ConnState) {})
